@@ -77,6 +77,7 @@ type inst struct {
 	trigMask uint32        // armed crash trigger: which seam kinds count
 	trigLeft int           // fires when it reaches 0
 	trigHit  string        // where it fired
+	stopped  bool          // Shutdown already issued
 	shadow   bool          // shadow instance (C02 oracle): emissions recorded separately, never delivered
 
 	outbox   []outMsg
@@ -169,7 +170,6 @@ type ledgerView struct {
 	in *inst
 }
 
-var never = make(chan struct{})
 
 func (l ledgerView) NextRound() basics.Round {
 	l.in.enter(seamRead)
@@ -184,12 +184,12 @@ func (l ledgerView) Wait(r basics.Round) chan struct{} {
 		k = seamWaitPersist
 	}
 	if !l.in.enter(k) {
-		return never
+		return l.sim.never // must be a channel created inside the bubble, or the select is not durably blocked
 	}
 	l.mu.Lock()
 	defer l.mu.Unlock()
 	if l.nextRound > r {
-		if r <= l.flushed {
+		if r <= l.flushed || l.in.shadow {
 			c := make(chan struct{})
 			close(c)
 			return c
@@ -468,6 +468,9 @@ func (c *simClock) Zero() timers.Clock[agreement.TimeoutType] {
 	n.tmu.Lock()
 	defer n.tmu.Unlock()
 	nc := &simClock{in: c.in, zeroAt: n.now}
+	if c.in != n.cur || c.in.shadow {
+		return nc
+	}
 	// timers of the previous zero are obsolete
 	c.in.node.pending = map[agreement.TimeoutType]*pendingTimer{}
 	c.in.node.curZero = nc.zeroAt
@@ -509,9 +512,11 @@ func (c *simClock) Decode(b []byte) (timers.Clock[agreement.TimeoutType], error)
 	}
 	z := time.Duration(binary.LittleEndian.Uint64(b))
 	n := c.in.node
-	n.tmu.Lock()
-	n.curZero = z
-	n.tmu.Unlock()
+	if !c.in.shadow {
+		n.tmu.Lock()
+		n.curZero = z
+		n.tmu.Unlock()
+	}
 	return &simClock{in: c.in, zeroAt: z}, nil
 }
 
